@@ -94,6 +94,8 @@ pub enum ObjSpec {
     /// 2 = Cal with n holidays (UnionCal of `members` such calendars if members > 0),
     /// 3 = PPSplineF64 with n knots, 4 = float Curve with n hourly nodes
     Big { what: u8, n: u64, members: u8 },
+    /// a stand-alone setting value: which 0 = Convention, 1 = Modifier, 2 = ADOrder; idx = variant
+    Setting { which: u8, idx: u8 },
 }
 
 /// (what, n, members): durable states just above 16, 32, 64, 128 and 256 MiB.
@@ -239,7 +241,29 @@ pub fn generate(rng: &mut Rng, tier: Tier) -> Plan {
             let mut dual2: Vec<Fx> = (0..n * n).map(|_| Fx::new(f(rng))).collect();
             // sparsity patterns of a caller-owned block: packed triangles, diagonal, one
             // entry, all zero (of either sign)
-            if rng.chance(0.2) {
+            if n >= 2 && rng.chance(0.06) {
+                // symmetric but for the last bit of a lower entry / the sign of a zero
+                for i in 0..n {
+                    for j in 0..i {
+                        let u = dual2[j * n + i].get();
+                        dual2[i * n + j] = Fx::new(match rng.below(4) {
+                            0 => f64::from_bits(u.to_bits().wrapping_add(1)),
+                            1 => f64::from_bits(u.to_bits().wrapping_sub(1)),
+                            _ => u,
+                        });
+                    }
+                }
+                if rng.chance(0.5) {
+                    let (i, j) = (rng.usize_in(1, n - 1), 0);
+                    dual2[j * n + i] = Fx::new(0.0);
+                    dual2[i * n + j] = Fx::new(-0.0);
+                }
+                for x in dual2.iter_mut() {
+                    if !x.get().is_finite() {
+                        *x = Fx::new(1.0);
+                    }
+                }
+            } else if rng.chance(0.2) {
                 let pat = rng.below(8);
                 let one = (rng.below(n as u64) as usize, rng.below(n as u64) as usize);
                 for i in 0..n {
@@ -330,6 +354,8 @@ pub fn generate(rng: &mut Rng, tier: Tier) -> Plan {
                 (0..nv).map(|i| format!("v{}", i)).collect()
             } else if rng.chance(0.15) {
                 hostile_names(rng, nv.max(1))
+            } else if rng.chance(0.12) {
+                family_names(rng, nv.max(2))
             } else {
                 odd_names(rng, nv.max(1))
             };
@@ -831,7 +857,72 @@ pub fn build_obj(spec: &ObjSpec) -> Result<Obj, Fail> {
         }
         ObjSpec::Spline { spec, .. } => Obj::Spline(build_spline(spec)?),
         ObjSpec::Big { what, n, members } => build_big(*what, *n as usize, *members as usize)?,
+        ObjSpec::Setting { .. } => return Err(herr("settings are executed on their own path")),
     })
+}
+
+/// Save / load lives of the field-less setting enums (immutable: no twin is needed).
+fn execute_setting(which: u8, idx: u8, ops: &[Op], obs: &mut Obs) -> Result<(), Fail> {
+    use rateslib::dual::ADOrder;
+    macro_rules! life {
+        ($T:ty, $val:expr, $name:expr) => {{
+            let orig: $T = $val;
+            let mut cur: $T = orig;
+            obs.count(&format!("life.{}", $name));
+            for (i, op) in ops.iter().enumerate() {
+                if let Op::Restart { medium, .. } = op {
+                    let mname = medium.name();
+                    let loaded: Result<$T, String> = match medium {
+                        Medium::Json | Medium::Tagged => serde_json::to_string(&cur)
+                            .map_err(|e| e.to_string())
+                            .and_then(|t| serde_json::from_str::<$T>(&t).map_err(|e| e.to_string())),
+                        Medium::Bincode => bincode::serialize(&cur)
+                            .map_err(|e| e.to_string())
+                            .and_then(|b| bincode::deserialize::<$T>(&b).map_err(|e| e.to_string())),
+                        Medium::Pickle => {
+                            let r = call(P, "pickle", || {
+                                pyo3::Python::with_gil(|py| -> Result<$T, String> {
+                                    use pyo3::prelude::*;
+                                    let o = pyo3::Py::new(py, cur).map_err(|e| e.to_string())?.into_any();
+                                    let bytes = crate::pyx::dumps(py, o)?;
+                                    let any = crate::pyx::loads(py, &bytes)?;
+                                    any.extract::<$T>().map_err(|e| e.to_string())
+                                })
+                            })
+                            .map_err(|mut e| {
+                                e.signature = format!("{}|{}|{}|load-panics", P, $name, mname);
+                                e
+                            })?;
+                            r
+                        }
+                    };
+                    obs.count(&format!("fault.RESTART_{}", mname.to_uppercase().replace('-', "_")));
+                    match loaded {
+                        Err(e) => {
+                            return Err(v($name, mname, "load-failed", format!("step {}: the object's own saved bytes do not load: {}", i, e)))
+                        }
+                        Ok(x) => {
+                            if x != orig || format!("{:?}", x) != format!("{:?}", orig) {
+                                return Err(v(
+                                    $name,
+                                    mname,
+                                    "not-equal-after-restart",
+                                    format!("step {}: {:?} came back as {:?}", i, orig, x),
+                                ));
+                            }
+                            cur = x;
+                        }
+                    }
+                }
+            }
+        }};
+    }
+    match which {
+        0 => life!(rateslib::calendars::Convention, c12::convention_of(idx), "Convention"),
+        1 => life!(Modifier, c12::modifier_of(idx), "Modifier"),
+        _ => life!(ADOrder, order_of(idx % 3), "ADOrder"),
+    }
+    Ok(())
 }
 
 fn build_big(what: u8, n: usize, members: usize) -> Result<Obj, Fail> {
@@ -1768,6 +1859,9 @@ fn compare_answers(
 }
 
 pub fn execute(plan: &Plan, obs: &mut Obs) -> Result<(), Fail> {
+    if let ObjSpec::Setting { which, idx } = &plan.obj {
+        return execute_setting(*which, *idx, &plan.ops, obs);
+    }
     let mut a = build_obj(&plan.obj)?;
     let mut b = build_obj(&plan.obj)?;
     let kind = a.kind();
@@ -2374,6 +2468,7 @@ pub fn shrink(plan: &Plan) -> Vec<Plan> {
                 out.push(p);
             }
         }
+        ObjSpec::Setting { .. } => {}
         ObjSpec::Big { what, n, members } => {
             // smaller by halves, then by a tenth: the minimiser stops just above the threshold
             for nn in [*n / 2, *n * 3 / 4, *n * 9 / 10, *n * 99 / 100] {
@@ -2462,6 +2557,22 @@ impl Scenario for C16 {
             });
             return;
         }
+        // every setting value through every medium (a fixed, complete sweep)
+        if unit % stride == 5 && unit / stride < 3 {
+            let which = (unit / stride) as u8;
+            let n = [11u8, 5, 3][which as usize];
+            for idx in 0..n {
+                for medium in [Medium::Json, Medium::Bincode, Medium::Pickle] {
+                    sink(Plan {
+                        obj: ObjSpec::Setting { which, idx },
+                        ops: vec![Op::Restart { medium, which: 0 }, Op::Restart { medium, which: 0 }],
+                        probes: vec![],
+                        probes_exact: vec![],
+                    });
+                }
+            }
+            return;
+        }
         let mut rng = Rng::new(mix(seed, "C16", unit));
         sink(generate(&mut rng, tier));
     }
@@ -2492,6 +2603,7 @@ impl Scenario for C16 {
             ObjSpec::Fx(_) => "life:FXRates",
             ObjSpec::Spline { .. } => "life:PPSpline",
             ObjSpec::Big { .. } => "life:very-large-object",
+            ObjSpec::Setting { .. } => "life:setting-enum",
         }
         .into()
     }
